@@ -23,7 +23,7 @@ ASSUMPTIONS = [
     "sorted-dict and cursor cut-point models in this file (DESIGN.md Appendix B5)",
     "structural walk reads BTree.root / node.elts / node.children as an optional witness; the deciding oracle is the model at the public API",
 ]
-REQUIRED = ["mon.delete_exact_refused", "mon.step", "mon.tree_equals_model", "mon.structure_walk", "mon.frozen_refuses", "mon.frozen_fingerprint", "mon.cursor_op", "mon.exhaustive_orders"]
+REQUIRED = ["mon.drill_full_shared_root", "mon.drill_delete_all", "mon.drill_cursor_on_falsy_key", "mon.delete_exact_refused", "mon.step", "mon.tree_equals_model", "mon.structure_walk", "mon.frozen_refuses", "mon.frozen_fingerprint", "mon.cursor_op", "mon.exhaustive_orders"]
 BUDGET = {"quick": 40.0, "thorough": 420.0}
 
 
@@ -506,12 +506,116 @@ def exhaustive(ctx, rng, nkeys, part, parts):
     return True
 
 
+def drills(ctx, rng):
+    """three short directed histories for corners the random walk reaches rarely"""
+    ctx.count("evaluations")
+    t = rng.choice((3, 3, 4, 5))
+    kind = rng.choice(("dict", "set"))
+    mk = (lambda **kw: dns.btree.BTreeDict(t=t, **kw)) if kind == "dict" else (lambda **kw: dns.btree.BTreeSet(t=t, **kw))
+
+    def put(lv, k, v):
+        if kind == "dict":
+            lv.tree[k] = v
+        else:
+            lv.tree.add(k)
+        lv.model[k] = v if kind == "dict" else None
+
+    def ok(lv, case, tag, idx=0):
+        return compare(ctx, lv, case, tag, idx) and walk(ctx, lv, case, tag) is not None
+
+    tag = f"{kind}:t{t}"
+    # (a) a clone whose first mutation is an insert while the root it still shares with the frozen original is exactly full
+    ctx.count("mon.drill_full_shared_root")
+    case = {"kind": "drill", "drill": "full-shared-root", "t": t, "tree": kind}
+    n = rng.choice((2 * t - 1, (2 * t - 1) * (t + 1) + (2 * t - 1)))  # a full single leaf / enough for a full internal root (sometimes)
+    orig = Live(mk(), {}, t, kind)
+    keys = list(range(0, 4 * n, 4))[:n]
+    for k in keys:
+        put(orig, k, k)
+    orig.tree.make_immutable()
+    orig.frozen = True
+    fp = fingerprint(orig.tree)
+    cl = Live(mk(original=orig.tree), dict(orig.model), t, kind)
+    for k in rng.sample(range(1, 4 * n, 2), min(3, n)):
+        put(cl, k, -k)
+        if not ok(cl, case, tag, 1) or not ok(orig, case, tag, 0):
+            return
+    now = fingerprint(orig.tree)
+    if any(k not in now or now[k][:2] != fp[k][:2] for k in fp):
+        ctx.violation(f"frozen-tree-node-changed:{tag}", "a node of the frozen original changed while its clone was written", case)
+        return
+    # (b) every key deleted, in random order, from a tree three or more levels high: the replacement of a key found in an
+    # internal node by its successor goes through rebalancing on the way down
+    ctx.count("mon.drill_delete_all")
+    case = {"kind": "drill", "drill": "delete-all", "t": t, "tree": kind}
+    lv = Live(mk(), {}, t, kind)
+    ks = rng.sample(range(500), rng.choice((25, 60, 120)))
+    for k in ks:
+        put(lv, k, k)
+    if not ok(lv, case, tag):
+        return
+    rng.shuffle(ks)
+    case["order"] = ks[:130]
+    for k in ks:
+        try:
+            if kind == "dict":
+                del lv.tree[k]
+            else:
+                lv.tree.remove(k)
+        except Exception as e:
+            ctx.violation(f"btree-delete-present-raised:{tag}", f"{k}: {e!r}", case)
+            return
+        del lv.model[k]
+        if not ok(lv, case, tag):
+            return
+    # (c) a cursor standing on a key that is falsy (0, the empty name) when the tree changes under it
+    ctx.count("mon.drill_cursor_on_falsy_key")
+    case = {"kind": "drill", "drill": "cursor-on-falsy-key", "t": t, "tree": kind}
+    use_names = rng.random() < 0.4
+    lv = Live(mk(), {}, t, kind)
+    universe = [dns.name.empty] + [dns.name.Name((bytes([97 + i]),)) for i in range(20)] if use_names else list(range(0, 40))
+    for k in rng.sample(universe[1:], 9) + [universe[0]]:
+        put(lv, k, str(k))
+    c = lv.tree.cursor()
+    c.__enter__()
+    try:
+        c.seek_first()
+        e = c.next()
+        if e is None or e.key() != universe[0]:
+            ctx.violation(f"cursor-differs-from-cut-model:{tag}:next", f"first key {None if e is None else e.key()}", case)
+            return
+        cut = ("after", universe[0])
+        for _ in range(rng.randint(1, 6)):
+            op = rng.choice(("del0", "ins", "ins", "del"))
+            if op == "del0" and universe[0] in lv.model:
+                lv.tree.pop(universe[0]) if kind == "dict" else lv.tree.remove(universe[0])
+                del lv.model[universe[0]]
+            elif op == "ins":
+                k = rng.choice(universe)
+                put(lv, k, "n")
+            elif op == "del" and len(lv.model) > 1:
+                k = rng.choice([x for x in lv.model if x != universe[0]])
+                lv.tree.pop(k) if kind == "dict" else lv.tree.remove(k)
+                del lv.model[k]
+            step = rng.choice(("next", "prev", "next"))
+            e = getattr(c, step)()
+            want, cut = cursor_expect(sorted(lv.model), cut, step)
+            got = None if e is None else e.key()
+            if got != want:
+                ctx.violation(f"cursor-differs-from-cut-model:{tag}:{step}:cursor-parked-on-falsy-key", f"after {op}: cursor {got} model {want}", case)
+                return
+    finally:
+        c.__exit__(None, None, None)
+
+
 def run(spec, ctx):
     rng = ctx.rng
     for i in range(spec["n"]):
         if ctx.expired(0.7):
             break
         history(ctx, rng, spec["steps"])
+        for _ in range(3):
+            drills(ctx, rng)
     done = exhaustive(ctx, rng, spec["exh_keys"], spec["exh_part"], spec["exh_parts"])
     if done:
         ctx.count("exhaustive.partitions_completed")
